@@ -158,7 +158,7 @@ pub fn judge_static(output: &str, position: &str, payload: &str, mark: &str, inj
                 }
                 "documentation" => {
                     // a doc line is one line of the payload
-                    want.lines().any(|line| v.trim() == line.trim()) || v.contains(&want)
+                    want.split(['\n', '\r']).any(|line| v.trim() == line.trim()) || v.contains(&want)
                 }
                 _ => v.contains(&want),
             };
@@ -171,55 +171,56 @@ pub fn judge_static(output: &str, position: &str, payload: &str, mark: &str, inj
     fails
 }
 
+pub const DANGERS: [&str; 44] = [
+    "\"",
+    "\\",
+    "\\\"",
+    "{",
+    "}",
+    "{}",
+    "{0}",
+    "\n",
+    "\r",
+    "\r\n",
+    "\t",
+    "*/",
+    "/*",
+    "//",
+    "'",
+    "r#",
+    "#",
+    "é",
+    "日本",
+    "😀",
+    " ",
+    "$",
+    "::",
+    ";",
+    ")",
+    "]",
+    "1",
+    "-",
+    ".",
+    "²",
+    "½",
+    "٣",
+    "①",
+    "Ⅷ",
+    "\u{301}",
+    "ª",
+    "\u{200d}",
+    "\"; pub fn INJ() {} //",
+    "\")] pub struct INJ; #[cfg(any())] #[yaserde(rename = \"",
+    "*/ pub fn INJ() {} /*",
+    "\n pub fn INJ() {}\n",
+    "); } pub fn INJ() { let _ = (",
+    "1), ..Default::default() }); fn INJ() {} fn x() { let _ = Rc::new(restrictions::Restrictions { max_inclusive: Some(2",
+    "\".to_string(), ]), ..Default::default() }); } fn INJ() { let _ = Some(vec![\"",
+];
+
 fn payloads() -> impl Strategy<Value = (String, String)> {
     // (prefix-part, dangerous-part); the marker and the injected identifier are added by the caller
-    let danger = prop_oneof![
-        Just("\"".to_string()),
-        Just("\\".to_string()),
-        Just("\\\"".to_string()),
-        Just("{".to_string()),
-        Just("}".to_string()),
-        Just("{}".to_string()),
-        Just("{0}".to_string()),
-        Just("\n".to_string()),
-        Just("\r".to_string()),
-        Just("\r\n".to_string()),
-        Just("\t".to_string()),
-        Just("*/".to_string()),
-        Just("/*".to_string()),
-        Just("//".to_string()),
-        Just("'".to_string()),
-        Just("r#".to_string()),
-        Just("#".to_string()),
-        Just("é".to_string()),
-        Just("日本".to_string()),
-        Just("😀".to_string()),
-        Just(" ".to_string()),
-        Just("$".to_string()),
-        Just("::".to_string()),
-        Just(";".to_string()),
-        Just(")".to_string()),
-        Just("]".to_string()),
-        Just("1".to_string()),
-        Just("-".to_string()),
-        Just(".".to_string()),
-        Just("²".to_string()),
-        Just("½".to_string()),
-        Just("٣".to_string()),
-        Just("①".to_string()),
-        Just("Ⅷ".to_string()),
-        Just("\u{301}".to_string()),
-        Just("ª".to_string()),
-        Just("\u{200d}".to_string()),
-        Just("\"; pub fn INJ() {} //".to_string()),
-        Just("\")] pub struct INJ; #[cfg(any())] #[yaserde(rename = \"".to_string()),
-        Just("*/ pub fn INJ() {} /*".to_string()),
-        Just("\n pub fn INJ() {}\n".to_string()),
-        Just("); } pub fn INJ() { let _ = (".to_string()),
-        Just("1), ..Default::default() }); fn INJ() {} fn x() { let _ = Rc::new(restrictions::Restrictions { max_inclusive: Some(2".to_string()),
-        Just("\".to_string(), ]), ..Default::default() }); } fn INJ() { let _ = Some(vec![\"".to_string()),
-    ];
-    ("[a-zA-Z]{0,4}", danger)
+    ("[a-zA-Z]{0,4}", (0usize..DANGERS.len()).prop_map(|i| DANGERS[i].to_string()))
 }
 
 pub fn keyword_matrix() -> Vec<(String, String, &'static str)> {
@@ -235,7 +236,7 @@ pub fn keyword_matrix() -> Vec<(String, String, &'static str)> {
             if !seen.insert(sp.clone()) {
                 continue;
             }
-            for pos in ["element-name", "attribute-name", "complex-type-name", "simple-type-name", "global-element-name", "operation-name", "part-name", "message-name"] {
+            for pos in ["element-name", "attribute-name", "complex-type-name", "simple-type-name", "global-element-name", "operation-name", "part-name", "message-name", "service-name"] {
                 v.push((k.to_string(), sp.clone(), pos));
             }
         }
@@ -276,7 +277,7 @@ pub fn run(tier: Tier) -> i32 {
         "C14",
         tier,
         "exploration",
-        "(a) EXHAUSTIVE matrix: every strict, reserved and edition-2024 Rust keyword x spelling (as is, Capitalised, UPPER) x position (element, attribute, complex type, simple type, global element, operation, message part, message name), one WSDL each; (c) 22 number-like facet values (+5, 007, 5.0, 1e3, out-of-range, non-ASCII digits ...); (b) proptest-chosen payloads (non-ASCII numerics, quotes, backslashes, braces, CR/LF/tab, comment delimiters, '; pub fn INJ() {} //'-style injections for attribute, comment, constructor and function contexts, non-ASCII letters, r#, digits) with a random prefix, a unique marker and a unique injected identifier, placed at each of 16 positions where schema text flows into the output (names, enumeration and facet values, documentation, namespace URI, soap:address, soapAction, service name). Oracle: syn::parse_file succeeds; the injected identifier never occurs as an identifier token; every string literal (doc comments included) that carries the marker evaluates to the original text (URLs: equal after parsing); rustc accepts the file. An input the generator rejects is fine. Non-trivial: payload containing one of \" \\ { } CR LF */ or a keyword; distinct by (position, text).",
+        "(a) EXHAUSTIVE matrix: every strict, reserved and edition-2024 Rust keyword x spelling (as is, Capitalised, UPPER) x position (element, attribute, complex type, simple type, global element, operation, message part, message name, service name), one WSDL each; (d) 16 whole names that are not words (_, __, -, ., digits, Self, self, crate, super, r#type, ...) at every name position; (c) 22 number-like facet values (+5, 007, 5.0, 1e3, out-of-range, non-ASCII digits ...); (b) EXHAUSTIVE product of 44 dangerous texts x 16 positions, then every dangerous text in the path, query and fragment of the address and action URLs and in an opaque action URI, and in thorough 6000 further proptest-chosen pairs: payloads (non-ASCII numerics, quotes, backslashes, braces, CR/LF/tab, comment delimiters, '; pub fn INJ() {} //'-style injections for attribute, comment, constructor and function contexts, non-ASCII letters, r#, digits) with a random prefix, a unique marker and a unique injected identifier, placed at each of 16 positions where schema text flows into the output (names, enumeration and facet values, documentation, namespace URI, soap:address, soapAction, service name). Oracle: syn::parse_file succeeds; the injected identifier never occurs as an identifier token; every string literal (doc comments included) that carries the marker evaluates to the original text (URLs: equal after parsing); rustc accepts the file. An input the generator rejects is fine. Non-trivial: payload containing one of \" \\ { } CR LF */ or a keyword; distinct by (position, text).",
     );
     ev.assume("comments are invisible to the token stream, so text that only reaches comments is accepted by construction as long as the file still parses and the injected identifier is no token");
     let ex = match Externs::discover() {
@@ -322,23 +323,58 @@ pub fn run(tier: Tier) -> i32 {
     ev.exhaustive = Some(true);
 
     // (b) payloads
-    let n = tier.pick(480, 6000);
+    // every dangerous text at every position once (with a generated prefix), then random pairs
+    let product = DANGERS.len() * POSITIONS.len();
+    let n = product + tier.pick(0, 6000);
     let mut runner = crate::common::runner("C14");
     let strat = (0usize..POSITIONS.len(), payloads());
     let mut cases: Vec<(usize, String, String, String)> = vec![];
     for k in 0..n {
         let (pos, (pre, danger)) = strat.new_tree(&mut runner).unwrap().current();
-        // all positions get each kind of payload over time; rotate so every position is hit evenly
-        let pos = (pos + k) % POSITIONS.len();
+        let (pos, danger) = if k < product {
+            (k % POSITIONS.len(), DANGERS[k / POSITIONS.len()].to_string())
+        } else {
+            // all positions get each kind of payload over time; rotate so every position is hit evenly
+            ((pos + k) % POSITIONS.len(), danger)
+        };
         let mark = format!("MK{k:05}x");
         let inj = format!("inj_{k:05}");
-        let mut text = format!("{pre}{mark}{}", danger.replace("INJ", &inj));
+        // the dangerous part sits between the marker and a short tail (a bare CR, say, differs from
+        // CR LF only when something follows it); the random pairs alternate with and without tail
+        let tail = if k < product || k % 2 == 0 { "q" } else { "" };
+        let mut text = format!("{pre}{mark}{}{tail}", danger.replace("INJ", &inj));
         // addresses and actions have to be URLs to be accepted at all: the payload rides in the path
         // or in the query
         if POSITIONS[pos] == "soap-address" || POSITIONS[pos] == "soap-action" {
-            text = if k % 2 == 0 { format!("http://localhost:8080/c14/{text}") } else { format!("http://localhost:8080/c14?q={text}") };
+            // in the product the shape follows the dangerous text's index, so that it does not depend
+            // on the position's index; all shapes for every dangerous text follow below
+            let shape = if k < product { k / POSITIONS.len() } else { k };
+            text = if shape % 2 == 0 { format!("http://localhost:8080/c14/{text}") } else { format!("http://localhost:8080/c14?q={text}") };
         }
         cases.push((pos, text, mark, inj));
+    }
+    // URL-valued positions: every dangerous text in every part of a URL (path, query, fragment) and,
+    // for the action, in an opaque URI
+    let mut k = n;
+    for (pi, pname) in POSITIONS.iter().enumerate().filter(|(_, p)| **p == "soap-address" || **p == "soap-action") {
+        for d in DANGERS {
+            for shape in 0..4 {
+                if shape == 3 && *pname == "soap-address" {
+                    continue;
+                }
+                let mark = format!("MK{k:05}x");
+                let inj = format!("inj_{k:05}");
+                let t = format!("{mark}{}q", d.replace("INJ", &inj));
+                let text = match shape {
+                    0 => format!("http://localhost:8080/c14/{t}"),
+                    1 => format!("http://localhost:8080/c14?q={t}"),
+                    2 => format!("http://localhost:8080/c14#{t}"),
+                    _ => format!("urn:c14:{t}"),
+                };
+                cases.push((pi, text, mark, inj));
+                k += 1;
+            }
+        }
     }
     let res: Vec<(Vec<Fail>, &'static str)> = cases
         .par_iter()
@@ -388,6 +424,38 @@ pub fn run(tier: Tier) -> i32 {
         for f in &nres[i].0 {
             let sig = format!("C14 numeric-facet:{}", f.sig);
             if !reported.insert(sig.clone()) {
+                continue;
+            }
+            route_failure(&mut ev, &findings, "schema-text-not-data", &sig, json!({"position": POSITIONS[*pos], "text": text, "detail": f.detail}));
+        }
+    }
+    // (d) whole names that are not words: punctuation-only, digits-only, path keywords, raw-looking
+    let odd: [&str; 16] = ["_", "__", "-", ".", "_1", "1", "1a", "é", "Self", "self", "crate", "super", "r#type", "a b", "a--b", "_type"];
+    let mut ocases: Vec<(usize, String)> = vec![];
+    for v in odd {
+        for (pi, p) in POSITIONS.iter().enumerate() {
+            if p.ends_with("-name") {
+                ocases.push((pi, v.to_string()));
+            }
+        }
+    }
+    let ores: Vec<(Vec<Fail>, &'static str)> = ocases
+        .par_iter()
+        .enumerate()
+        .map(|(i, (pos, text))| {
+            let dir = pipeline::case_dir(&scratch, 300_000 + i);
+            let r = judge_full(&ex, &dir, POSITIONS[*pos], text, "\u{0}", "inj_never");
+            let _ = std::fs::remove_dir_all(&dir);
+            r
+        })
+        .collect();
+    for (i, (pos, text)) in ocases.iter().enumerate() {
+        ev.case(&format!("odd|{pos}|{text}"), true);
+        ev.class(&format!("odd-name.{}", ores[i].1));
+        for f in &ores[i].0 {
+            let sig = format!("C14 odd-name:{}", f.sig);
+            if !reported.insert(sig.clone()) {
+                ev.class("further-failing-odd-names");
                 continue;
             }
             route_failure(&mut ev, &findings, "schema-text-not-data", &sig, json!({"position": POSITIONS[*pos], "text": text, "detail": f.detail}));
